@@ -104,11 +104,40 @@ def run(rep, tier, seed):
         if "lsc" in name:
             continue
         cases.append((None, Case("t_" + name.replace(".", "_"), [Step("parse_doc", 0, "xml_buffer", 1, 1, xml), Step("write_xml", 0)], timeout=60)))
-    res = run_cases([c for _, c in cases])
+    # in slices, so that a library that suddenly needs the whole watchdog time for many models is noticed after the
+    # first slice instead of after hours; the watchdog itself never decides: models whose writing did not return are
+    # run again alone with a generous limit, and only if writing a model of a few kilobytes still does not return then
+    # is that reported (the parse of the same model, done in the same child just before, took milliseconds)
+    res = {}
+    stuck = []
+    for k in range(0, len(cases), 400):
+        part = [c for _, c in cases[k:k + 400]]
+        for c in part:
+            c.timeout = 20
+        res.update(run_cases(part))
+        stuck = [c for _, c in cases[:k + 400] if c.id in res and res[c.id]["status"] == "timeout"]
+        if len(stuck) > 12:
+            break
+    cases = [(m, c) for m, c in cases if c.id in res]
+    if stuck:
+        again = [Case(c.id + "again", c.steps, timeout=180) for c in stuck[:8]]
+        ares = run_cases(again, jobs=4, chunk_size=1)
+        for c in again:
+            r = ares[c.id]
+            if r["status"] == "timeout" and len(r["steps"]) >= 1 and r["steps"][0].get("op") == "parse_doc":
+                rep.violation("C20:write-does-not-return", "write_XML_file on an accepted model of %d bytes did not return within 180 s when run "
+                              "alone (the parse of the same model finished in the same process)" % len(c.steps[0].args[4]), c)
+            elif r["status"] == "timeout":
+                rep.inconclusive_case("watchdog during parse")
+            elif r["status"] != "ok":
+                rep.crash(r, c)
     stats = {"templates": 0, "locations": 0, "edges": 0, "branchpoint_edges": 0, "selects": 0, "self_loops": 0,
              "uncontrollable": 0, "probabilities": 0}
     for m, c in cases:
         r = res[c.id]
+        if r["status"] == "timeout":
+            rep.inconclusive_case("watchdog (decided by the run alone, see above)") if len(stuck) <= 12 else None
+            continue
         if r["status"] != "ok":
             # writing never crashes (reported under this property with the crash key)
             rep.crash(r, c)
